@@ -1,4 +1,5 @@
 """C09 - a preloaded face and unhinted font can be shared by concurrent shapers (DESIGN.md section 5, C09)."""
+import os
 import re
 from concurrent.futures import ThreadPoolExecutor
 
@@ -42,11 +43,12 @@ def run(chk):
 
     def one(job):
         fpath, tpath, n, control = job
-        args = ['--seed', chk.seed, '--font', fpath, '--texts', tpath, '--threads', n, '--reps', (3 if quick else 30), '--jobs', (60 if quick else 200), '--control', control]
+        big = os.path.getsize(fpath) > 300000            # TSan on the collision fonts is an order of magnitude slower per segment
+        args = ['--seed', chk.seed, '--font', fpath, '--texts', tpath, '--threads', n, '--reps', (3 if quick else (4 if big else 12)), '--jobs', (60 if quick else 200), '--control', control]
         rc, out, err = R.run_one(exe, args, wall=3000)
         return job, rc, out, err, args
 
-    with ThreadPoolExecutor(3 if quick else 2) as ex:
+    with ThreadPoolExecutor(3) as ex:
         results = list(ex.map(one, jobs))
     tot = {}
     control_reports = 0
